@@ -1,6 +1,7 @@
 """Program model over mirfacts JSON: functions, CFG utilities, call graph,
 value flow.  Pure Python, stdlib only."""
 import json
+import os
 import re
 from collections import defaultdict, deque
 
@@ -531,9 +532,78 @@ def _rewrite_paths(doc, crate_prefix, strip_prefix):
     return walk(doc)
 
 
+BASELINE = os.path.join(os.path.dirname(os.path.dirname(os.path.abspath(__file__))), "tables", "symbols_baseline.json")
+
+
+def _short(path):
+    """Name of an item without its module path: `name`, or `Type::name` for methods (trait impls: the method name)."""
+    p = path
+    if p.startswith("<") and ">::" in p:
+        return p.rsplit(">::", 1)[1]
+    segs = re.sub(r"<[^<>]*>", "", p).split("::")
+    if len(segs) >= 2 and segs[-2][:1].isupper():
+        return segs[-2] + "::" + segs[-1]
+    return segs[-1]
+
+
+def _normalise_moves(doc):
+    """Items that were merely MOVED (into another module, a new file, an impl or a private trait) get their baseline path
+    back, so that rules and reviewed table lines keyed by path are indifferent to where an item lives.  An item counts as
+    moved when its baseline path is gone and exactly one new item of the same short name has appeared."""
+    if os.environ.get("VERIF_NO_MOVE_NORMALISATION") or not os.path.exists(BASELINE):
+        return doc, {}
+    base = json.load(open(BASELINE))
+    crate = doc.get("crate")
+    bset = set(base.get(crate, []))
+    if not bset:
+        return doc, {}
+    cur = set()
+    for f in doc.get("functions", []):
+        if f.get("kind") != "Closure":
+            cur.add(f["path"])
+    for c in doc.get("consts", []):
+        cur.add(c["path"])
+    for st in doc.get("statics", []):
+        if "path" in st:
+            cur.add(st["path"])
+    cur |= set(doc.get("hir", {}).keys())
+    missing = bset - cur
+    new = cur - bset
+    by_short = {}
+    for n in new:
+        by_short.setdefault(_short(n), []).append(n)
+    mapping = {}
+    for m in missing:
+        c = by_short.get(_short(m), [])
+        others_missing = [x for x in missing if _short(x) == _short(m)]
+        if len(c) == 1 and len(others_missing) == 1:
+            mapping[c[0]] = m
+    if not mapping:
+        return doc, {}
+    keys = sorted(mapping, key=len, reverse=True)
+    pat = re.compile("|".join(re.escape(k) for k in keys))
+
+    def fix(sv):
+        if not any(k in sv for k in keys):
+            return sv
+        return pat.sub(lambda mm: mapping[mm.group(0)] if (mm.end() == len(sv) or not (sv[mm.end()].isalnum() or sv[mm.end()] == "_")) else mm.group(0), sv)
+
+    def walk(x):
+        if isinstance(x, dict):
+            return {(fix(k) if isinstance(k, str) else k): walk(v) for k, v in x.items()}
+        if isinstance(x, list):
+            return [walk(v) for v in x]
+        if isinstance(x, str):
+            return fix(x)
+        return x
+    return walk(doc), mapping
+
+
 def load_program(main_path, bins_path=None):
     p = Program()
-    p.add(json.load(open(main_path)))
+    doc, moved = _normalise_moves(json.load(open(main_path)))
+    p.moved = moved
+    p.add(doc)
     if bins_path:
         p.add(json.load(open(bins_path)), strip_prefix="chialisp")
     return p
